@@ -288,7 +288,7 @@ def forbid_entropy(n):
 # may REFUSE a bytes-like carrier with any exception, it may not compute something else from it (`style_accepts`).
 
 STYLE = None
-STYLES = ("subclass", "subclass-init", "password-keyword", "inbound-bytearray", "inbound-memoryview", "blob-bytearray", "unbound-calls")
+STYLES = ("subclass", "subclass-init", "password-keyword", "positional", "inbound-bytearray", "inbound-memoryview", "blob-bytearray", "unbound-calls")
 _SUBS = {}
 
 
@@ -356,6 +356,12 @@ def do_finish(obj, msg):
     return obj.finish(styled_inbound(msg))
 
 
+def do_serialize(obj):
+    if STYLE == "unbound-calls":
+        return type(obj).serialize(obj)
+    return obj.serialize()
+
+
 def style_relaxed():
     """under a bytes-like carrier style an exception where the definition yields a value is acceptable (the library may refuse the carrier)"""
     return STYLE in ("inbound-bytearray", "inbound-memoryview", "blob-bytearray")
@@ -393,13 +399,21 @@ class Inst:
             idS = ids[0] if ids else b""
             if STYLE == "password-keyword":
                 return cls(password=pw, idSymmetric=idS, params=self.params, entropy_f=entropy)
+            if STYLE == "positional":
+                # the released signature: SPAKE2_Symmetric(password, idSymmetric=b"", params=DefaultParams, entropy_f=os.urandom)
+                return cls(pw, idS, self.params, entropy)
             return cls(pw, idSymmetric=idS, params=self.params, entropy_f=entropy)
         idA, idB = ids if ids else (b"", b"")
         if STYLE == "password-keyword":
             return cls(entropy_f=entropy, params=self.params, idB=idB, idA=idA, password=pw)
+        if STYLE == "positional":
+            # the released signature: SPAKE2_A/B(password, idA=b"", idB=b"", params=DefaultParams, entropy_f=os.urandom)
+            return cls(pw, idA, idB, self.params, entropy)
         return cls(pw, idA=idA, idB=idB, params=self.params, entropy_f=entropy)
 
     def restore(self, side, blob):
+        if STYLE == "positional":
+            return lib().cls[side].from_serialized(blob, self.params)
         return styled_class(lib().cls[side]).from_serialized(styled_blob(blob), params=self.params)
 
     def w(self, pw):
